@@ -80,14 +80,14 @@ class Harness(cm.BaseA):
         return {"wl": wl, "files": files}
 
     def core_events(self, W, config):
-        return EMIT[:4] + EMIT[10:11] + [["save", "w.gwl", "str"], ["save", "W.GWL", "Path"], ["save", "w.txt", "str"], ["save", "other.gwl", "str"], ["enter"], ["exit", False], ["exit", True], ["foreign", "w.gwl"]]
+        return EMIT[:4] + EMIT[10:11] + [["save", "w.gwl", "str"], ["save", "W.GWL", "Path"], ["save", "w.txt", "str"], ["save", "other.gwl", "str"], ["enter"], ["exit", False], ["exit", True], ["foreign", "w.gwl"], ["foreign", "w.gwl", "lf"]]
 
     def full_events(self, W, config):
         ev = list(EMIT if config["cls"] == "EvoWorklist" else EMIT[:-1])
         for n in NAMES:
             for t in ("str", "Path"):
                 ev.append(["save", n, t])
-        ev += [["enter"], ["exit", False], ["exit", True], ["with_raise"], ["foreign", "w.gwl"], ["foreign", "other.gwl"]]
+        ev += [["enter"], ["exit", False], ["exit", True], ["with_raise"], ["foreign", "w.gwl"], ["foreign", "other.gwl"], ["foreign", "w.gwl", "lf"], ["foreign", "w.gwl", "cr"], ["foreign", "w.gwl", "mixed"], ["foreign", "W.GWL", "crlf+"]]
         if W.get("n", 0) > 1:
             return ev
         # long scripts (block-wise writers, buffer boundaries): only from states reached by <= 1 event
@@ -106,7 +106,16 @@ class Harness(cm.BaseA):
     def step(self, W, ev, config):
         if ev[0] == "foreign":
             # another program (or another worklist) overwrites / creates the file between two saves
-            W["files"] = dict(W["files"], **{ev[1]: FOREIGN})
+            content = FOREIGN
+            if len(ev) > 2:
+                # the same records as the worklist holds right now, with other line breaks (an export from elsewhere)
+                recs = [r.encode("latin-1", "replace") for r in W["wl"]]
+                sep = {"lf": b"\n", "cr": b"\r", "crlf+": b"\r\n"}.get(ev[2])
+                if ev[2] == "mixed":
+                    content = b"".join(r + (b"\n" if i % 2 else b"\r\n") for i, r in enumerate(recs))
+                else:
+                    content = sep.join(recs) + (b"\r\n" if ev[2] == "crlf+" else b"")
+            W["files"] = dict(W["files"], **{ev[1]: content})
             W["n"] = W.get("n", 0) + 1
             if f"saved:{ev[1]}" in W.get("hist", []):
                 W["hist"] = sorted(set(W["hist"]) | {f"foreign-after-save:{ev[1]}"})
